@@ -251,7 +251,7 @@ func (dsp *DataStreamProcessor) AnalyzeData(records []*DataRecord) {
 			rec.pretrigDelta = valPTDelta * 12.0 / float64(npre*(npre+1))
 		}
 
-		max := ptm
+		max := math.Inf(-1) // the peak is the largest post-trigger sample, even when it lies below the pretrigger mean
 		var sum, sum2 float64
 		for i := rec.presamples; i < len(rec.data); i++ {
 			val = dataVec.AtVec(i)
